@@ -27,20 +27,20 @@ def custom_policy(mask):
 def gen_history(rng, cfg, docgen, ntx=(1, 5), maxops=6, p_cancel=0.1,
                 p_raise=0.05, p_iofault=0.05, p_restart=0.3,
                 update_only=False, schema_changes=False, merges=MERGES,
-                p_delete=0.3, p_bad_add=0.0):
+                p_delete=0.3, p_bad_add=0.0, p_schema=(0.15, 0.08)):
     """Returns a list of ops (JSON-able)."""
     ops = []
     vocab = cfg.vocab
     names = list(cfg.fields)
     for tx in range(rng.randint(*ntx)):
         ops.append(["writer", {}])
-        if schema_changes and rng.random() < 0.15:
+        if schema_changes and rng.random() < p_schema[0]:
             cand = [n for n in ("kw", "so", "n", "tv") if n not in names]
             if cand:
                 nm = rng.choice(cand)
                 names.append(nm)
                 ops.append(["add_field", nm])
-        elif schema_changes and rng.random() < 0.08:
+        elif schema_changes and rng.random() < p_schema[1]:
             cand = [n for n in names if n not in ("k", "u", "t") and "*" not in n]
             if cand:
                 nm = rng.choice(cand)
